@@ -11,7 +11,7 @@ open Refine Raft
 /-- recording a vote changes `trk.votes` only -/
 theorem vra_polled {n : Nat} {r : Raft} {m : Message} (haux : AuxInv n r) (hs : r.state = .candidate) :
     AuxInv n (polled r m) ∧ AuxFrame r (polled r m) := by
-  refine ⟨⟨fun hl => ?_, haux.self, haux.outFrom⟩, Nat.le_refl _, fun _ h => ⟨h, Nat.le_refl _⟩⟩
+  refine ⟨⟨fun hl => ?_, haux.self, haux.outFrom⟩, Nat.le_refl _, fun _ h => ⟨h, Nat.le_refl _⟩, fun _ h => h⟩
   have : r.state = .leader := hl
   rw [hs] at this; cases this
 
@@ -31,8 +31,9 @@ theorem vra_won (val : Val) {n : Nat} {p s1 r' : Raft} (haux : AuxInv n p) (hid 
   have hlast : r'.log.lastIndex = p.log.lastIndex + 1 := by
     rw [hok.log, ← hl1, hp.log, ← hl0]; simp
   have hfr : AuxFrame p r' := by
-    refine ⟨by rw [hterm]; exact Nat.le_refl _, fun _ hl => ?_⟩
-    rw [hs] at hl; cases hl
+    refine ⟨by rw [hterm]; exact Nat.le_refl _, fun _ hl => ?_, fun _ hl => ?_⟩
+    · rw [hs] at hl; cases hl
+    · rw [hs] at hl; cases hl
   have hst : r'.state = .leader := hok.state.trans hp.state
   refine ⟨⟨?_, ?_, ?_⟩, hfr⟩
   · intro _ pr hpr
@@ -47,7 +48,7 @@ theorem vra_won (val : Val) {n : Nat} {p s1 r' : Raft} (haux : AuxInv n p) (hid 
     · simp only [List.mem_singleton] at hx
       subst hx
       intro _
-      refine ⟨Or.inr rfl, rfl, hid, ?_, fun _ _ => ⟨hst, ?_⟩⟩
+      refine ⟨Or.inr rfl, rfl, hid, ?_, fun _ _ => Or.inr ⟨hst, ?_⟩⟩
       · show p.term ≤ r'.term
         rw [hterm]; exact Nat.le_refl _
       · show (absLog val p).length + 1 ≤ r'.log.lastIndex
